@@ -241,7 +241,10 @@ LEVEL_TEXT = (
     "the start class as pumping, the extractor model returns keys, and each extracted key was turned back into a rule "
     "with that key, then genuine and local rules make the recursive evaluation return the true counts of the start "
     "class at every size, with no other solution (C03 sound_complete and C11 extract_productive discharge the "
-    "productivity hypothesis of C01_spec_correct)."
+    "productivity hypothesis of C01_spec_correct). C01_forest_pipeline_total removes the two 'the run returned' "
+    "hypotheses as well (C03_terminates, C11_total) and adds one rule per class (C11_one_rule_per_class_total): for "
+    "EVERY list of inserted keys, a pumping answer of the total table-method run implies that the extractor returns "
+    "a one-rule-per-class rule set whose genuine, local rules evaluate to the truth."
 )
 LEVEL_NOTE = (
     "The link between the bottom-up executable evaluator and the recursive `eval` of Spec/Eval.v is the uniqueness "
